@@ -89,6 +89,13 @@ HIsRef    == Finished => Range(result) = Hdr(0, Len(w)) /\ Len(result) = Cardina
 HComplete == Finished => \A s \in 0..(Len(w) - 1) : HeaderAt(s) =>
                 \/ Covered(result, s)
                 \/ \E c \in rejected : c[1] < s /\ s < c[2] /\ c[2] < GreedyEnd(re, w, s)
+(* the same without reference to the loop's bookkeeping - the clause the acceptors use (NestedSearchTrace,    *)
+(* NestedHeaderTrace): whatever hides s is a greedy match of the WHOLE word that starts before s, ends inside   *)
+(* the span of s and has no body.  Checked here so that the acceptors can never reject the coded loop.         *)
+HCompleteDeclarative == Finished => \A s \in 0..(Len(w) - 1) : HeaderAt(s) =>
+                \/ Covered(result, s)
+                \/ \E cs \in 0..(s - 1) : /\ GreedySucceeds(re, w, cs) /\ s < GreedyEnd(re, w, cs)
+                                           /\ GreedyEnd(re, w, cs) < GreedyEnd(re, w, s) /\ ~FollowedOK(GreedyEnd(re, w, cs))
 (* not required by anything, recorded as a characteristic: inside a rejected candidate the longest match is  *)
 (* taken within the candidate, so a reported inner header need not be the longest word from its start in w   *)
 HLongestOuter == Finished => \A i \in 1..Len(result) :
